@@ -24,7 +24,7 @@ def drain_predicate(F):
     """(GET coroutine, body calling the drain primitive, call site, call term, predicate closure body)."""
     aw, get = role_get(F)
     preds = []
-    for b in F.nested(get):
+    for b in roles.family(F, get):   # GET, its closures, or a private helper fn of it (`Features::drain_ready(storage, ty, limit, ..)`)
         for s, t in b.calls(lambda t: callee_is(t, r"drain_filter$", r"extract_if$", r"retain$", r"retain_mut$")):
             kb = A.closure_of_operand(F, b, t["args"][-1])
             if kb is not None:
@@ -152,6 +152,27 @@ class GetTable:
                             ty = x[2]
                 out.append((i, ty, e, e[4]))
         return out
+
+    def gave(self, p, d):
+        """What path p learned about the result of drain invocation d (from drains()): 'nothing' | 'something' | None.
+        Covers the routine returning `Option<Vec>` (None = nothing) and returning a `Vec` tested with is_empty() / len()."""
+        uid = d[3]
+        o = self.outcome_of(p, uid)
+        if o == "None":
+            return "nothing"
+        if o == "Some":
+            return "something"
+        for atom, out in p.conds:
+            if not isinstance(out, bool):
+                continue
+            if atom[0] == "call" and re.search(r"Vec(::<.*>)?::is_empty$|\]>::is_empty$", atom[1]) and \
+                    any(x[0] == "call" and x[3] == uid for a in atom[2] for x in D.subterms(a)):
+                return "nothing" if out else "something"
+            if atom[0] == "bin" and atom[1] == "Eq" and ("const", 0) in (atom[2], atom[3]):
+                other = atom[3] if atom[2] == ("const", 0) else atom[2]
+                if other[0] == "call" and re.search(r"Vec(::<.*>)?::len$", other[1]) and any(x[0] == "call" and x[3] == uid for a in other[2] for x in D.subterms(a)):
+                    return "nothing" if out else "something"
+        return None
 
     @staticmethod
     def outcome_of(p, uid):
